@@ -95,7 +95,8 @@ class ScriptedNetworkStack(BaseNetworkStack):
                 return ql.ResCreateAndKeep(
                     create_id=f.get("create_id", 0), directionality_flag=f.get("directionality_flag", direction), sequence_number=f.get("sequence_number", 0),
                     purpose_id=f["purpose_id"], remote_node_id=f["remote_node_id"], goodness=f.get("goodness", 0),
-                    bell_state=ql.BellState[NQBell(bell_idx).name], logical_qubit_id=phys, time_of_goodness=f.get("goodness_time", 0),
+                    # (a plain integer in a 1.0 object is passed on as it is, i.e. read with this package's numbering: qlink_compat says so)
+                    bell_state=bell_idx if f.get("qlink10_int") else ql.BellState[NQBell(bell_idx).name], logical_qubit_id=phys, time_of_goodness=f.get("goodness_time", 0),
                 )
             return LinkLayerOKTypeK(
                 type=f.get("type", ReturnType.OK_K),
